@@ -1382,6 +1382,14 @@ def run_impl(case):
             if ent.get("x_header") != ("1" if extra & 2 else None):
                 viol.append(f"transport: op {k_i} extra request header arrived as {ent.get('x_header')!r}, "
                             f"the store was built with headers={kw.get('headers')}")
+            # SPARQL 1.1 Protocol: the dataset parameters change what a request means; the store never asks for any
+            # but default-graph-uri on queries (and the text parameter of GET / form requests)
+            allowed = {"x-extra"} | ({"default-graph-uri"} if ent["path"] == "/query" else set())
+            if ent.get("text_key"):
+                allowed.add(ent["text_key"])
+            odd = sorted({k_ for k_, _v in ent.get("params", [])} - allowed)
+            if odd:
+                viol.append(f"transport: op {k_i} request carries parameter(s) {odd} the call did not ask for")
             if ent["path"] == "/query" and len(ent.get("default-graph-uri", [])) > 1:
                 viol.append(f"transport: op {k_i} query sent with several default-graph-uri {ent['default-graph-uri']}")
             if ent.get("error") and exc is None:
